@@ -195,16 +195,25 @@ def first_match_rule(rep, prog, cfg):
                   "Frame::%s does not return the FIRST remaining match (uses %s)" % (m, sorted(set(back)) or "no forward search"))
         if m == "get":
             # the value is removed through the element that matched: Option::take on the closure's own parameter
+            # (closure form: the closure's parameter; loop form: the element the forward iterator just yielded, which must
+            # also be the element whose key was compared)
             ok = False
             for fb in family(prog, b):
-                if fb.kind != "Closure":
-                    continue
                 fl = Flow(fb)
+                nexts = {bb for bb, t in fb.calls() if IT + "next" in callee_names(t)}
                 for bb, t in fb.calls():
                     if "core::option::Option::take" in callee_names(t):
                         leaves, _ = fl.sources([op_local(t["args"][0])], through_call=identity_through, follow_mut=False)
-                        if ("param", 2) in leaves:
+                        if fb.kind == "Closure" and ("param", 2) in leaves:
                             ok = True
+                        elem = {x for x in leaves if x[0] == "call" and x[1] in nexts}
+                        if elem:
+                            for bb2, t2 in fb.calls():
+                                if any(n.endswith("PartialEq::eq") or n.endswith("::eq") for n in callee_names(t2)) and len(t2["args"]) == 2:
+                                    for a in t2["args"]:
+                                        la, _ = fl.sources([op_local(a)] if op_local(a) is not None else [], through_call=identity_through, follow_mut=False)
+                                        if elem & la:
+                                            ok = True
             rep.check(ok, rule, cfg + "/Frame::get removes the matched element", b.loc(b.span),
                       "Frame::get does not take the value out of the very element it matched")
     bs = body_by_name(prog, F + "fields_len")
